@@ -521,7 +521,9 @@ func (b *Builder) AllComparisonSeries(existing []*ComparisonSeries, dupeHow int)
 					}
 
 					hp, ok := cs.HashPairs[serString]
-					if !ok {
+					if !ok || hp.DenHash == "" {
+						// Also when a trial without baseline was seen first:
+						// which trial comes first depends on map order.
 						cs.HashPairs[serString] = ComparisonHashes{NumHash: hashString, DenHash: tr.baselineHashString}
 					} else {
 						if hp.NumHash != hashString || hp.DenHash != tr.baselineHashString {
